@@ -153,6 +153,8 @@ func runC15(c *core.Ctx) {
 		}
 	}
 	c15Writer(c, both, br)
+	// the merged listing is sorted by the unifier itself (members promise no order for referrers)
+	c05SortedIn(c, "C15.R4", []string{"ociunify"})
 	sequentialFallsBackOnAnyFailure(c, "C15.R5")
 	cancelBeforeReturnNotForReaders(c, "C15.R6")
 	c15MergeIter(c)
